@@ -113,15 +113,45 @@ fn check_chunks(case: &ChunkCase, ctx: &mut Ctx) {
 /// except for the network reads named in `corrupt`. Returns the client's result and the number of
 /// inauthentic replies that were actually delivered.
 fn perform_read(map: &HashMap<Vec<u8>, Chunk>, decoy: &Chunk, target: xor_name::XorName, public: bool, corrupt: &[(u8, Corruption)], order: &[u16]) -> (Result<Vec<u8>, String>, usize) {
+    perform_read_op(map, decoy, if public { ReadOp::DataPublic(target) } else { ReadOp::Chunk(target) }, corrupt, order)
+}
+
+/// The client entrances through which content-addressed data is read.
+#[derive(Clone, Debug)]
+pub enum ReadOp {
+    Chunk(xor_name::XorName),
+    DataPublic(xor_name::XorName),
+    /// the caller holds the data map; only the chunks it names come from the network
+    DataPrivate(autonomi::client::data::DataMapChunk),
+    ArchivePublic(xor_name::XorName),
+    ArchivePrivate(autonomi::client::data::DataMapChunk),
+}
+
+/// canonical bytes of an archive: its entries sorted by path
+pub fn canon_public_archive(a: &autonomi::client::files::archive_public::PublicArchive) -> Vec<u8> {
+    let mut e: Vec<String> = a.iter().map(|(p, addr, m)| format!("{p:?}|{}|{}|{}|{}|{}", hex::encode(addr.0), m.uploaded, m.created, m.modified, m.size)).collect();
+    e.sort();
+    e.join("\n").into_bytes()
+}
+
+pub fn canon_private_archive(a: &autonomi::client::files::archive::PrivateArchive) -> Vec<u8> {
+    let mut e: Vec<String> = a.iter().map(|(p, dm, m)| format!("{p:?}|{}|{}|{}|{}|{}", dm.to_hex(), m.uploaded, m.created, m.modified, m.size)).collect();
+    e.sort();
+    e.join("\n").into_bytes()
+}
+
+fn perform_read_op(map: &HashMap<Vec<u8>, Chunk>, decoy: &Chunk, rop: ReadOp, corrupt: &[(u8, Corruption)], order: &[u16]) -> (Result<Vec<u8>, String>, usize) {
     let paid = |c: &Chunk| ant_protocol::storage::try_serialize_record(&(ant_evm::ProofOfPayment { peer_quotes: vec![] }, c.clone()), ant_protocol::storage::RecordKind::ChunkWithPayment).map(|b| b.to_vec()).unwrap_or_default();
     let mut delivered_bad = 0usize;
     let res: Result<Vec<u8>, String> = with_sim(|sim| {
         let client = sim.client.clone();
         let op = sim.spawn(async move {
-            if public {
-                client.data_get_public(target).await.map(|b| b.to_vec()).map_err(|e| format!("{e:?}"))
-            } else {
-                client.chunk_get(target).await.map(|c| c.value().to_vec()).map_err(|e| format!("{e:?}"))
+            match rop {
+                ReadOp::DataPublic(target) => client.data_get_public(target).await.map(|b| b.to_vec()).map_err(|e| format!("{e:?}")),
+                ReadOp::Chunk(target) => client.chunk_get(target).await.map(|c| c.value().to_vec()).map_err(|e| format!("{e:?}")),
+                ReadOp::DataPrivate(dm) => client.data_get(dm).await.map(|b| b.to_vec()).map_err(|e| format!("{e:?}")),
+                ReadOp::ArchivePublic(target) => client.archive_get_public(target).await.map(|a| canon_public_archive(&a)).map_err(|e| format!("{e:?}")),
+                ReadOp::ArchivePrivate(dm) => client.archive_get(dm).await.map(|a| canon_private_archive(&a)).map_err(|e| format!("{e:?}")),
             }
         });
         let mut read_no = 0usize;
@@ -272,6 +302,119 @@ fn check_reread(case: &RereadCase, ctx: &mut Ctx) {
     ctx.sample = Some(serde_json::json!({"case": case, "bad_replies_delivered": bad_total}));
 }
 
+
+// ------------------------------------------------------------------------------------------------
+// section wrappers: the other entrances through which content-addressed data reaches the caller —
+// data_get (the caller holds the data map), archive_get_public, archive_get. Whatever the entrance,
+// what is returned must be what the requested address / data map describes.
+// ------------------------------------------------------------------------------------------------
+
+#[derive(Clone, Debug, Serialize, Deserialize)]
+pub struct WrapCase {
+    /// 0 data_get, 1 archive_get_public, 2 archive_get
+    pub entrance: u8,
+    pub size: u16,
+    pub seed: u16,
+    pub corrupt: Vec<(u8, Corruption)>,
+    pub order: Vec<u16>,
+}
+
+fn wrap_strategy() -> BoxedStrategy<WrapCase> {
+    (0u8..3, 1u16..3000, any::<u16>(), proptest::collection::vec((0u8..5, corruption()), 0..3), proptest::collection::vec(any::<u16>(), 0..8))
+        .prop_map(|(entrance, size, seed, corrupt, order)| WrapCase { entrance, size, seed, corrupt, order })
+        .boxed()
+}
+
+fn archive_meta(i: u64) -> autonomi::client::files::archive::Metadata {
+    autonomi::client::files::archive::Metadata { uploaded: 1_700_000_000 + i, created: 1_600_000_000 + i * 3, modified: 1_650_000_000 + i * 7, size: i * 1001 }
+}
+
+/// serialised archive with `n` entries derived from `seed` (public: addresses; private: data maps)
+fn archive_bytes(private: bool, n: usize, seed: u64) -> (Vec<u8>, Vec<u8>) {
+    use std::path::PathBuf;
+    if private {
+        let mut a = autonomi::client::files::archive::PrivateArchive::new();
+        for i in 0..n as u64 {
+            let dm = autonomi::client::data::DataMapChunk::from(fix::chunk(seed * 1000 + i, 40 + (i as usize % 30)));
+            a.add_file(PathBuf::from(format!("dir{}/file-{seed}-{i}.bin", i % 3)), dm, archive_meta(i));
+        }
+        (a.to_bytes().expect("archive serialises").to_vec(), canon_private_archive(&a))
+    } else {
+        let mut a = autonomi::client::files::archive_public::PublicArchive::new();
+        for i in 0..n as u64 {
+            let addr = xor_name::XorName(fix::sha3(&(seed * 1000 + i).to_be_bytes()));
+            a.add_file(PathBuf::from(format!("dir{}/file-{seed}-{i}.bin", i % 3)), addr, archive_meta(i));
+        }
+        (a.to_bytes().expect("archive serialises").to_vec(), canon_public_archive(&a))
+    }
+}
+
+fn check_wrappers(case: &WrapCase, ctx: &mut Ctx) {
+    let entrance = case.entrance % 3;
+    // the honest object and the object a substituting holder would like the caller to see
+    let (data, expect, decoy_data) = match entrance {
+        0 => {
+            let d = content_of(&Content::Mixed(case.seed), case.size as usize + 3);
+            (d.clone(), d, content_of(&Content::Mixed(case.seed ^ 0x5a5a), case.size as usize + 10))
+        }
+        e => {
+            let n = 1 + case.size as usize % 48;
+            let (bytes, canon) = archive_bytes(e == 2, n, case.seed as u64);
+            let (dbytes, _) = archive_bytes(e == 2, n + 1, case.seed as u64 ^ 0x77);
+            (bytes, canon, dbytes)
+        }
+    };
+    let Ok((dm, chunks)) = autonomi::self_encryption::encrypt(Bytes::from(data)) else {
+        ctx.fail("encryptable_input_rejected", format!("entrance {entrance}, size {}", case.size));
+        return;
+    };
+    let mut map: HashMap<Vec<u8>, Chunk> = HashMap::new();
+    for c in chunks.iter().chain(std::iter::once(&dm)) {
+        map.insert(key_of(c.name()).to_vec(), c.clone());
+    }
+    // the decoy is complete and fully served: its data map (for the public entrance) and all its chunks
+    let decoy = match autonomi::self_encryption::encrypt(Bytes::from(decoy_data)) {
+        Ok((dm2, chunks2)) => {
+            for c in &chunks2 {
+                map.entry(key_of(c.name()).to_vec()).or_insert_with(|| c.clone());
+            }
+            if entrance == 1 {
+                dm2
+            } else {
+                chunks2[0].clone()
+            }
+        }
+        Err(_) => fix::chunk(977 + case.seed as u64, 64),
+    };
+    let rop = match entrance {
+        0 => ReadOp::DataPrivate(autonomi::client::data::DataMapChunk::from(dm.clone())),
+        1 => ReadOp::ArchivePublic(*dm.name()),
+        _ => ReadOp::ArchivePrivate(autonomi::client::data::DataMapChunk::from(dm.clone())),
+    };
+    let name = ["data_get", "archive_get_public", "archive_get"][entrance as usize];
+    let (res, delivered_bad) = perform_read_op(&map, &decoy, rop, &case.corrupt, &case.order);
+    ctx.label(name);
+    ctx.label_if(delivered_bad > 0, "inauthentic_reply_delivered");
+    ctx.label_if(res.is_ok(), "read_succeeded");
+    ctx.label_if(res.is_ok() && delivered_bad > 0, "read_succeeded_despite_inauthentic_replies");
+    ctx.nontrivial_if(delivered_bad > 0);
+    ctx.canon = Some(format!("{case:?}"));
+    ctx.sample = Some(serde_json::json!({"case": case, "entrance": name, "ok": res.is_ok(), "bad_replies_delivered": delivered_bad}));
+    match res {
+        Ok(bytes) => {
+            if bytes != expect {
+                ctx.fail(format!("{name}_returns_substituted_content"), format!("{name}: got {} canonical bytes that are not the object the requested address / data map describes ({delivered_bad} inauthentic replies delivered)", bytes.len()));
+            }
+        }
+        Err(e) => {
+            // every reply honest: the read is the harness's precondition for judging anything
+            if delivered_bad == 0 {
+                ctx.precondition_failed("honest_read_failed", format!("{name}: {e}"));
+            }
+        }
+    }
+}
+
 // ------------------------------------------------------------------------------------------------
 // vault
 // ------------------------------------------------------------------------------------------------
@@ -303,6 +446,9 @@ pub struct VaultCase {
     pub arrival: Vec<u16>,
     /// terminator: 0 finished, 1 not found, 2 timeout
     pub term: u8,
+    /// read through `get_user_data_from_vault` (the vault holds serialised user data)
+    #[serde(default)]
+    pub user_data: bool,
 }
 
 fn vault_strategy() -> BoxedStrategy<VaultCase> {
@@ -312,8 +458,8 @@ fn vault_strategy() -> BoxedStrategy<VaultCase> {
         0u8..3,
     )
         .prop_map(|(counter, kind, data)| PadVer { counter, kind, data });
-    (proptest::collection::vec(ver, 1..=4), proptest::collection::vec(proptest::option::weighted(0.85, 0u8..4), 5), proptest::collection::vec(any::<u16>(), 5), 0u8..3)
-        .prop_map(|(versions, holders, arrival, term)| VaultCase { versions, holders, arrival, term })
+    (proptest::collection::vec(ver, 1..=4), proptest::collection::vec(proptest::option::weighted(0.85, 0u8..4), 5), proptest::collection::vec(any::<u16>(), 5), 0u8..3, prop_oneof![3 => Just(false), 1 => Just(true)])
+        .prop_map(|(versions, holders, arrival, term, user_data)| VaultCase { versions, holders, arrival, term, user_data })
         .boxed()
 }
 
@@ -324,20 +470,49 @@ fn plain_of(v: &PadVer) -> Vec<u8> {
     fix::pseudo_bytes(7000 + v.data as u64 * 10 + v.counter as u64, 33)
 }
 
-fn build_pad(v: &PadVer, idx: usize) -> Scratchpad {
-    let cipher = fix::encrypt_for(OWNER, &plain_of(v), 100 + idx as u64);
+/// the user data a version holds in the `user_data` mode (distinct per (data, counter))
+fn user_data_of(v: &PadVer) -> autonomi::client::vault::UserData {
+    let mut ud = autonomi::client::vault::UserData::new();
+    for i in 0..(1 + v.data as u64) {
+        ud.add_file_archive_with_name(xor_name::XorName(fix::sha3(&(v.counter as u64 * 100 + v.data as u64 * 10 + i).to_be_bytes())), format!("archive-{}-{}-{i}", v.data, v.counter));
+    }
+    ud
+}
+
+fn canon_user_data(ud: &autonomi::client::vault::UserData) -> Vec<u8> {
+    let mut e: Vec<String> = ud.file_archives.iter().map(|(a, n)| format!("pub|{}|{n}", hex::encode(a.0))).chain(ud.private_file_archives.iter().map(|(a, n)| format!("priv|{}|{n}", a.to_hex()))).collect();
+    e.sort();
+    e.join("\n").into_bytes()
+}
+
+/// what the caller should get back from version `v` (canonical form in the user-data mode)
+fn expected_of(v: &PadVer, user_data: bool) -> Vec<u8> {
+    if user_data {
+        canon_user_data(&user_data_of(v))
+    } else {
+        plain_of(v)
+    }
+}
+
+fn build_pad_mode(v: &PadVer, idx: usize, user_data: bool) -> Scratchpad {
+    let (plain, enc) = if user_data {
+        (user_data_of(v).to_bytes().expect("user data serialises").to_vec(), *autonomi::client::vault::user_data::USER_DATA_VAULT_CONTENT_IDENTIFIER)
+    } else {
+        (plain_of(v), 9)
+    };
+    let cipher = fix::encrypt_for(OWNER, &plain, 100 + idx as u64);
     match v.kind {
-        PadKind::OwnerSigned => fix::scratchpad(OWNER, 9, cipher, v.counter as u64, fix::Sig::Valid),
-        PadKind::Unsigned => fix::scratchpad(OWNER, 9, cipher, v.counter as u64, fix::Sig::Missing),
-        PadKind::SignedByOtherKey => fix::scratchpad(OWNER, 9, cipher, v.counter as u64, fix::Sig::OtherKey),
-        PadKind::InflatedCounter => fix::scratchpad(OWNER, 9, cipher, 40 + v.counter as u64, fix::Sig::OtherCounter),
-        PadKind::ForeignOwner => fix::scratchpad(FOREIGN, 9, cipher, v.counter as u64, fix::Sig::Valid),
+        PadKind::OwnerSigned => fix::scratchpad(OWNER, enc, cipher, v.counter as u64, fix::Sig::Valid),
+        PadKind::Unsigned => fix::scratchpad(OWNER, enc, cipher, v.counter as u64, fix::Sig::Missing),
+        PadKind::SignedByOtherKey => fix::scratchpad(OWNER, enc, cipher, v.counter as u64, fix::Sig::OtherKey),
+        PadKind::InflatedCounter => fix::scratchpad(OWNER, enc, cipher, 40 + v.counter as u64, fix::Sig::OtherCounter),
+        PadKind::ForeignOwner => fix::scratchpad(FOREIGN, enc, cipher, v.counter as u64, fix::Sig::Valid),
     }
 }
 
 fn check_vault(case: &VaultCase, ctx: &mut Ctx) {
     let key = fix::scratchpad_key(OWNER);
-    let pads: Vec<Scratchpad> = case.versions.iter().enumerate().map(|(i, v)| build_pad(v, i)).collect();
+    let pads: Vec<Scratchpad> = case.versions.iter().enumerate().map(|(i, v)| build_pad_mode(v, i, case.user_data)).collect();
     let authentic: Vec<bool> = pads.iter().map(|p| fix::scratchpad_is_authentic(p, &fix::pk(OWNER))).collect();
     // arrival order of the holders' replies
     let mut order: Vec<usize> = (0..case.holders.len()).collect();
@@ -349,7 +524,14 @@ fn check_vault(case: &VaultCase, ctx: &mut Ctx) {
     let res = with_sim(|sim| {
         let client = sim.client.clone();
         let sk = fix::sk(OWNER);
-        let op = sim.spawn(async move { client.fetch_and_decrypt_vault(&sk).await.map(|(b, t)| (b.to_vec(), t)).map_err(|e| format!("{e:?}")) });
+        let user_data = case.user_data;
+        let op = sim.spawn(async move {
+            if user_data {
+                client.get_user_data_from_vault(&sk).await.map(|ud| (canon_user_data(&ud), 0)).map_err(|e| format!("{e:?}"))
+            } else {
+                client.fetch_and_decrypt_vault(&sk).await.map(|(b, t)| (b.to_vec(), t)).map_err(|e| format!("{e:?}"))
+            }
+        });
         let mut served = false;
         let ok = sim.drive(&op, |sim| {
             let (id, k) = (sim.outstanding[0].id, sim.outstanding[0].key.clone());
@@ -391,6 +573,8 @@ fn check_vault(case: &VaultCase, ctx: &mut Ctx) {
     ctx.label_if(distinct_delivered.len() >= 2, "two_or_more_versions_delivered");
     ctx.label_if(distinct_delivered.iter().any(|i| !authentic[*i]), "inauthentic_version_delivered");
     ctx.label_if(auth_delivered.is_empty(), "no_authentic_version_delivered");
+    ctx.label(if case.user_data { "get_user_data_from_vault" } else { "fetch_and_decrypt_vault" });
+    ctx.label_if(res.is_ok(), "read_succeeded");
     for v in &case.versions {
         ctx.label(format!("version_{:?}", v.kind));
     }
@@ -402,7 +586,7 @@ fn check_vault(case: &VaultCase, ctx: &mut Ctx) {
             ctx.fail("vault_returns_unauthenticated_data", format!("no authentic version was delivered (delivered kinds {kinds:?}), yet the vault read returned {} bytes", bytes.len()));
             return;
         }
-        let from: Vec<usize> = (0..pads.len()).filter(|i| distinct_delivered.contains(i) && plain_of(&case.versions[*i]) == bytes).collect();
+        let from: Vec<usize> = (0..pads.len()).filter(|i| distinct_delivered.contains(i) && expected_of(&case.versions[*i], case.user_data) == bytes).collect();
         if from.is_empty() {
             ctx.fail("vault_returns_bytes_of_no_delivered_version", format!("{} bytes", bytes.len()));
         } else if !from.iter().any(|i| authentic[*i]) {
@@ -433,6 +617,11 @@ pub fn run(cfg: RunCfg) {
             rep, "vault", (6_000, 300_000), 16,
             "non-trivial: >=2 distinct versions delivered or an inauthentic one delivered; distinct by whole case",
             vault_strategy, check_vault
+        );
+        vh_core::section!(
+            rep, "wrappers", (6_000, 200_000), 16,
+            "the other read entrances (data_get with a caller-held data map, archive_get_public, archive_get) against the same substituted replies; the decoy object is complete and fully served. non-trivial: >=1 inauthentic reply delivered; distinct by whole case",
+            wrap_strategy, check_wrappers
         );
         vh_core::section!(
             rep, "reread", (4_000, 120_000), 16,
